@@ -341,25 +341,3 @@ def c05c_cut_with(ex, st, label, defs, lam):
         f2 = ex.truth(st, ex.call(st, lam, [], {}, None))
         st.assume(f2)
     return v_bool(True)
-
-
-@spec('c05c_key')
-def c05c_key(ex, st, d, q):
-    """c05c_key(d, q): the q-th key of the dictionary d in insertion order (0 <= q < len(d)), as the plain term
-    elems(d)[q].  (`keys_of(d)[q]` / `list(d)[q]` wrap the key list in an array lambda, select(lambda j. elems[j], q),
-    which the solver only beta-reduces lazily: E-matching then misses the instances a proof needs.)"""
-    from pyvc.vals import as_int, as_ref
-    if d.kind == 'opt':
-        d = V(d.t, d.ty.args[0])
-    if d.kind != 'dict':
-        raise Unsupported(f'c05c_key of a {d.kind}')
-    kty = d.ty.args[0] if len(d.ty.args) == 2 else REAL
-    i = as_int(q)
-    heap_read = st.read(as_ref(d), '$elems')
-    v = V(z3.Select(heap_read, i), kty)
-    n = st.read(as_ref(d), '$len')
-    try:
-        st.assume_type(v, guard=z3.And(i >= 0, i < n))
-    except TypeError:
-        st.assume_type(v)
-    return v
